@@ -6,6 +6,7 @@
    the table plus a computed side condition), so they are re-checked on every regeneration. *)
 From Coq Require Import String List NArith Bool Arith Lia.
 From CMinx Require Import Base.Str Model.Path Model.Config Gen.ConfigData.
+From CMinx Require Extract.Tree Extract.Dispatch.
 Import ListNotations.
 
 (* ---- spec ---- *)
@@ -36,9 +37,11 @@ Definition yval_has_type (ty : oty) (v : yval) : bool :=
   | _, _ => false
   end.
 
-(* the two documented cases in which the template accepts a value of a type the property
-   does not allow:  F15 (template level only; main() now rejects it through all_contents)
-   a string for a TOptSeq option, and F27 a mapping for a TStrSeq option (its keys are used) *)
+(* the two documented cases in which the TEMPLATE ALONE accepts a value of a type the property
+   does not allow:  F15 a string for a TOptSeq option (main() rejects it through all_contents,
+   repo commit 58e9c7d), and F27 a mapping for a TStrSeq option (StrSeq would use its keys;
+   main() now rejects it through the isinstance check on rst.headers, Config.headers_ok).
+   Both are closed at the level of main(): see wrong_type_rejected_by_main below *)
 Definition known_exception (ty : oty) (v : yval) : bool :=
   match ty, v with
   | TOptSeq, YStr _ => true
@@ -96,6 +99,35 @@ Definition excl_src_ok (key : str) (src : source) : bool :=
   match assoc key (src_vals src) with
   | Some v => excl_value_ok v
   | None => true
+  end.
+
+(* the two option paths main() checks itself, after the template validation *)
+Definition excl_opt : str := s"input.exclude_filters".
+Definition headers_opt : str := s"rst.headers".
+
+(* main-level acceptance of a source stack: the three steps of main() that can reject a
+   configuration, in the order of the source -- settings.get(template) (settings_of), the
+   isinstance check on the raw rst.headers value (headers_ok, repair of F27), the loop over
+   the exclude filters of every source (all_contents, repair of F15).  This is the condition
+   under which Extract/Dispatch.main_settings answers code 0 and under which the translated
+   main() raises nothing (Proofs/MainSourceMatch.v, main_raises_iff_not_accepted) *)
+Definition main_accepts (cwd : str) (stack : list source) : bool :=
+  match settings_of cwd stack template with
+  | None => false
+  | Some _ =>
+      headers_ok stack
+      && match all_contents stack excl_opt with Some _ => true | None => false end
+  end.
+
+(* the options of the template whose type has a template-level exception are exactly the two
+   options main() checks: TOptSeq only input.exclude_filters, TStrSeq only rst.headers
+   (a computed condition on the generated table: a new option of such a type would make the
+   proofs below stop compiling) *)
+Definition exception_covered (kt : str * oty) : bool :=
+  match snd kt with
+  | TOptSeq => str_eqb (fst kt) excl_opt
+  | TStrSeq => str_eqb (fst kt) headers_opt
+  | _ => true
   end.
 
 (* K9: the directory a relative output directory is resolved against *)
@@ -284,7 +316,8 @@ Proof. vm_compute. repeat split. Qed.
 Theorem stacking_order_is_file_then_args : stacking_order = [SrcFile; SrcArgs].
 Proof. reflexivity. Qed.
 
-(* ==================== K7: wrong types are rejected (one exception) ==================== *)
+(* ==================== K7: wrong types are rejected (by the template: two exceptions,
+   both closed by main(), see K11) ==================== *)
 
 Lemma all_strs_none : forall l, forallb is_ystr l = false -> all_strs l = None.
 Proof.
@@ -353,7 +386,11 @@ Example exclude_filters_string_accepted_by_template_alone : forall cwd rc x src,
   /\ convert cwd rc TOptSeq (Some (YStr x, src)) = COk (CStrs []).
 Proof. intros cwd rc x src. split; reflexivity. Qed.
 
-(* F27: a mapping given for rst.headers (StrSeq) is accepted; its keys become the headers *)
+(* F27, template level: StrSeq ALONE accepts a mapping given for rst.headers and would take its
+   keys as the headers (list(value) of a dict); this is the behaviour of the confuse library and
+   it stays in convert.  Since the repair of F27 main() rejects the mapping all the same, by its
+   own isinstance check after settings.get: see headers_mapping_rejected_by_main below.  The two
+   statements that follow are therefore about the TEMPLATE ALONE, not about a run of main() *)
 Example C16_headers_mapping_refuted : forall cwd rc,
   exists ks src, yval_has_type TStrSeq (YMap ks) = false
                  /\ convert cwd rc TStrSeq (Some (YMap ks, src)) = COk (CStrs ks).
@@ -361,12 +398,13 @@ Proof.
   intros cwd rc. exists [s"#"; s"*"], defaults_src. split; reflexivity.
 Qed.
 
+(* template alone (see above) *)
 Example headers_mapping_accepted : forall cwd rc ks src,
   yval_has_type TStrSeq (YMap ks) = false
   /\ convert cwd rc TStrSeq (Some (YMap ks, src)) = COk (CStrs ks).
 Proof. intros cwd rc ks src. split; reflexivity. Qed.
 
-(* there are exactly these two exceptions *)
+(* there are exactly these two exceptions (of the template alone; none is left for main()) *)
 Theorem wrong_type_accepted_only_two_exceptions : forall cwd rc ty v src,
   yval_has_type ty v = false ->
   convert cwd rc ty (Some (v, src)) <> CTypeError ->
@@ -1027,27 +1065,306 @@ Example wrong_type_not_replaced_nonvacuous :
     end) template = true.
 Proof. vm_compute. reflexivity. Qed.
 
-(* both checks of main() together: template validation and the exclude-pattern validation *)
+(* ==================== K11: the checks main() makes itself ==================== *)
+
+Lemma main_accepts_spec : forall cwd stack,
+  main_accepts cwd stack = true <->
+  settings_of cwd stack template <> None
+  /\ headers_ok stack = true
+  /\ all_contents stack excl_opt <> None.
+Proof.
+  intros cwd stack. unfold main_accepts.
+  destruct (settings_of cwd stack template) as [st|].
+  - destruct (headers_ok stack); destruct (all_contents stack excl_opt) as [ex|]; cbn [andb].
+    + split; [intros _; repeat split; discriminate | reflexivity].
+    + split; [discriminate | intros (_ & _ & H); destruct (H eq_refl)].
+    + split; [discriminate | intros (_ & H & _); discriminate H].
+    + split; [discriminate | intros (_ & H & _); discriminate H].
+  - split; [discriminate | intros (H & _); destruct (H eq_refl)].
+Qed.
+
+(* failing any one of the three steps is enough *)
+Lemma main_rejects_template : forall cwd stack,
+  settings_of cwd stack template = None -> main_accepts cwd stack = false.
+Proof. intros cwd stack H. unfold main_accepts. rewrite H. reflexivity. Qed.
+
+Lemma main_rejects_headers : forall cwd stack,
+  headers_ok stack = false -> main_accepts cwd stack = false.
+Proof.
+  intros cwd stack H. unfold main_accepts. rewrite H.
+  destruct (settings_of cwd stack template); reflexivity.
+Qed.
+
+Lemma main_rejects_exclude : forall cwd stack,
+  all_contents stack excl_opt = None -> main_accepts cwd stack = false.
+Proof.
+  intros cwd stack H. unfold main_accepts. rewrite H.
+  destruct (settings_of cwd stack template); [apply andb_false_r | reflexivity].
+Qed.
+
+(* what the new check looks at: the raw winning value of rst.headers *)
+Lemma headers_ok_false_iff : forall stack,
+  headers_ok stack = false <-> exists ks src, resolve stack headers_opt = Some (YMap ks, src).
+Proof.
+  intros stack. unfold headers_ok. fold headers_opt.
+  destruct (resolve stack headers_opt) as [[v src]|].
+  - destruct v; try (split; [discriminate | intros (ks & src' & E); discriminate E]).
+    split; [intros _; exists keys, src; reflexivity | reflexivity].
+  - split; [discriminate | intros (ks & src' & E); discriminate E].
+Qed.
+
+(* F27 closed: a mapping for rst.headers in the highest-priority source that sets the option makes
+   main() fail (stated like exclude_filters_string_rejected_by_main, against the step of main() that
+   rejects it, and against the main-level acceptance) *)
+Theorem headers_mapping_rejected_by_main : forall cwd pre src post ks,
+  Forall (unset headers_opt) pre ->
+  assoc headers_opt (src_vals src) = Some (YMap ks) ->
+  headers_ok (pre ++ src :: post) = false
+  /\ main_accepts cwd (pre ++ src :: post) = false.
+Proof.
+  intros cwd pre src post ks Hpre Hv.
+  assert (H : headers_ok (pre ++ src :: post) = false).
+  { apply headers_ok_false_iff. exists ks, src. apply resolve_first_setting_source.
+    exists pre, post. repeat split; assumption. }
+  split; [exact H | apply main_rejects_headers; exact H].
+Qed.
+
+(* the same for F15, against the main-level acceptance: a string in ANY source *)
+Corollary exclude_filters_string_not_accepted_by_main : forall cwd pre src post x,
+  assoc excl_opt (src_vals src) = Some (YStr x) ->
+  main_accepts cwd (pre ++ src :: post) = false.
+Proof.
+  intros cwd pre src post x Hv. apply main_rejects_exclude.
+  apply (exclude_filters_string_rejected_by_main pre src post excl_opt x Hv).
+Qed.
+
+(* the new check rejects nothing else: a list, a string, any other non-mapping value, or no value
+   at all for rst.headers passes it, and then main() accepts exactly what it accepted before *)
+Theorem headers_list_or_string_not_affected : forall stack,
+  match resolve stack headers_opt with
+  | Some (v, _) => is_ymap v = false
+  | None => True
+  end ->
+  headers_ok stack = true
+  /\ forall cwd, main_accepts cwd stack
+                 = match settings_of cwd stack template, all_contents stack excl_opt with
+                   | Some _, Some _ => true
+                   | _, _ => false
+                   end.
+Proof.
+  intros stack H.
+  assert (Hok : headers_ok stack = true).
+  { unfold headers_ok. fold headers_opt. destruct (resolve stack headers_opt) as [[v src]|]; [|reflexivity].
+    destruct v; try reflexivity. discriminate H. }
+  split; [exact Hok|]. intros cwd. unfold main_accepts. rewrite Hok.
+  destruct (settings_of cwd stack template); reflexivity.
+Qed.
+
+Corollary headers_list_passes : forall pre src post l,
+  Forall (unset headers_opt) pre -> assoc headers_opt (src_vals src) = Some (YList l) ->
+  headers_ok (pre ++ src :: post) = true.
+Proof.
+  intros pre src post l Hpre Hv. apply headers_list_or_string_not_affected.
+  assert (R : resolve (pre ++ src :: post) headers_opt = Some (YList l, src)).
+  { apply resolve_first_setting_source. exists pre, post. repeat split; assumption. }
+  rewrite R. reflexivity.
+Qed.
+
+Corollary headers_string_passes : forall pre src post x,
+  Forall (unset headers_opt) pre -> assoc headers_opt (src_vals src) = Some (YStr x) ->
+  headers_ok (pre ++ src :: post) = true.
+Proof.
+  intros pre src post x Hpre Hv. apply headers_list_or_string_not_affected.
+  assert (R : resolve (pre ++ src :: post) headers_opt = Some (YStr x, src)).
+  { apply resolve_first_setting_source. exists pre, post. repeat split; assumption. }
+  rewrite R. reflexivity.
+Qed.
+
+Corollary headers_absent_passes : forall stack,
+  Forall (unset headers_opt) stack -> headers_ok stack = true.
+Proof.
+  intros stack H. apply headers_list_or_string_not_affected.
+  apply resolve_none in H. rewrite H. exact I.
+Qed.
+
+(* a mapping in a source BELOW the one that wins the option is not looked at (view.get() is the
+   first value only), unlike for the exclude filters *)
+Example headers_check_nonvacuous :
+  let src v := {| src_kind := SrcFile; src_vals := [(s"rst.headers", v)]; src_dir := None |} in
+  let low := {| src_kind := SrcUser; src_vals := [(s"rst.headers", YMap [s"#"; s"*"])]; src_dir := None |} in
+  map (fun v => (headers_ok [src v; defaults_src], main_accepts (s"/w") [src v; defaults_src]))
+      [YMap [s"#"; s"*"]; YMap []; YList [YStr (s"=")]; YStr (s"= -"); YList [YInt 1]; YInt 3; YNull]
+  = [(false, false); (false, false); (true, true); (true, true); (true, false); (true, false); (true, false)]
+  /\ headers_ok [defaults_src] = true /\ main_accepts (s"/w") [defaults_src] = true
+  /\ headers_ok [src (YStr (s"=")); low; defaults_src] = true
+  /\ main_accepts (s"/w") [src (YStr (s"=")); low; defaults_src] = true
+  /\ main_accepts (s"/w") [low; defaults_src] = false.
+Proof. vm_compute. repeat split. Qed.
+
+(* main_accepts is the condition under which the extracted model served to the differential
+   harness (Extract/Dispatch.main_settings) answers code 0 (accepted, with the settings); a
+   rejected stack is code 1 (confuse error), an unparsable command line code 2 *)
+Definition dispatch_stack (p : parsed) (sfile user : option source) : list source :=
+  args_source cli_table p
+  :: (match sfile with Some x => [x] | None => [] end)
+  ++ (match user with Some x => [x] | None => [] end)
+  ++ [defaults_src].
+
+Theorem dispatch_main_settings_code : forall cwd argv sfile user,
+  match parse_args cli_table argv with
+  | None => Extract.Dispatch.main_settings cwd argv sfile user = Extract.Tree.L [Extract.Tree.I 2%N]
+  | Some p =>
+      if main_accepts cwd (dispatch_stack p sfile user)
+      then exists st ex rest,
+             settings_of cwd (dispatch_stack p sfile user) template = Some st
+             /\ all_contents (dispatch_stack p sfile user) excl_opt = Some ex
+             /\ Extract.Dispatch.main_settings cwd argv sfile user
+                = Extract.Tree.L (Extract.Tree.I 0%N :: rest)
+      else Extract.Dispatch.main_settings cwd argv sfile user = Extract.Tree.L [Extract.Tree.I 1%N]
+  end.
+Proof.
+  intros cwd argv sfile user. unfold Extract.Dispatch.main_settings.
+  destruct (parse_args cli_table argv) as [p|]; [|reflexivity].
+  cbv zeta. fold defaults_src. fold (dispatch_stack p sfile user). unfold main_accepts.
+  change (s"input.exclude_filters") with excl_opt.
+  destruct (settings_of cwd (dispatch_stack p sfile user) template) as [st|]; [|reflexivity].
+  destruct (all_contents (dispatch_stack p sfile user) excl_opt) as [ex|].
+  - destruct (headers_ok (dispatch_stack p sfile user)); cbn [andb]; [|reflexivity].
+    eexists; eexists; eexists. repeat split; reflexivity.
+  - rewrite andb_false_r. reflexivity.
+Qed.
+
+(* the harness sees the repair: a mapping for rst.headers in the -s file is code 1 *)
+Example dispatch_headers_mapping_code :
+  let f v := Some {| src_kind := SrcFile; src_vals := [(s"rst.headers", v)]; src_dir := None |} in
+  Extract.Dispatch.main_settings (s"/w") [s"a"] (f (YMap [s"="; s"-"])) None
+  = Extract.Tree.L [Extract.Tree.I 1%N]
+  /\ match Extract.Dispatch.main_settings (s"/w") [s"a"] (f (YList [YStr (s"=")])) None with
+     | Extract.Tree.L (Extract.Tree.I 0%N :: _) => True
+     | _ => False
+     end.
+Proof. vm_compute. split; [reflexivity | exact I]. Qed.
+
+(* all three checks of main() together: template validation, the rst.headers check and the
+   exclude-pattern validation *)
 Lemma defaults_exclude_ok : excl_src_ok (s"input.exclude_filters") defaults_src = true.
 Proof. vm_compute. reflexivity. Qed.
+
+Lemma template_headers_type : In (headers_opt, TStrSeq) template.
+Proof. vm_compute. tauto. Qed.
+
+Lemma defaults_headers_ok :
+  match assoc headers_opt yaml_defaults with Some v => is_ymap v | None => false end = false.
+Proof. vm_compute. reflexivity. Qed.
+
+Lemma headers_ok_well_typed : forall upper,
+  forallb (src_well_typed template) upper = true ->
+  headers_ok (upper ++ [defaults_src]) = true.
+Proof.
+  intros upper Hty. destruct (headers_ok (upper ++ [defaults_src])) eqn:E; [reflexivity|].
+  exfalso. apply headers_ok_false_iff in E. destruct E as (ks & src & R).
+  apply resolve_first_setting_source in R. destruct R as (pre & post & Es & Hv & _).
+  assert (Hin : In src (upper ++ [defaults_src])).
+  { rewrite Es. apply in_or_app. right. left. reflexivity. }
+  apply in_app_or in Hin. destruct Hin as [Hin | [Ed | []]].
+  - rewrite forallb_forall in Hty.
+    assert (H := src_well_typed_spec template src headers_opt TStrSeq (YMap ks) (Hty _ Hin)
+                   template_headers_type Hv).
+    discriminate H.
+  - subst src. cbn [defaults_src src_vals] in Hv. assert (H := defaults_headers_ok).
+    rewrite Hv in H. discriminate H.
+Qed.
 
 Theorem main_total_on_well_typed : forall cwd upper,
   forallb (src_well_typed template) upper = true ->
   forallb (excl_src_ok (s"input.exclude_filters")) upper = true ->
   settings_of cwd (upper ++ [defaults_src]) template <> None
+  /\ headers_ok (upper ++ [defaults_src]) = true
   /\ all_contents (upper ++ [defaults_src]) (s"input.exclude_filters")
-     = Some (expected_union (s"input.exclude_filters") (upper ++ [defaults_src])).
+     = Some (expected_union (s"input.exclude_filters") (upper ++ [defaults_src]))
+  /\ main_accepts cwd (upper ++ [defaults_src]) = true.
 Proof.
-  intros cwd upper Hty Hex. split.
-  - apply settings_total_on_well_typed. exact Hty.
-  - apply exclude_is_union. rewrite forallb_app. rewrite Hex. cbn [forallb andb].
-    rewrite defaults_exclude_ok. reflexivity.
+  intros cwd upper Hty Hex.
+  assert (H1 : settings_of cwd (upper ++ [defaults_src]) template <> None)
+    by (apply settings_total_on_well_typed; exact Hty).
+  assert (H2 : headers_ok (upper ++ [defaults_src]) = true)
+    by (apply headers_ok_well_typed; exact Hty).
+  assert (H3 : all_contents (upper ++ [defaults_src]) (s"input.exclude_filters")
+               = Some (expected_union (s"input.exclude_filters") (upper ++ [defaults_src]))).
+  { apply exclude_is_union. rewrite forallb_app. rewrite Hex. cbn [forallb andb].
+    rewrite defaults_exclude_ok. reflexivity. }
+  split; [exact H1|]. split; [exact H2|]. split; [exact H3|].
+  apply main_accepts_spec. split; [exact H1|]. split; [exact H2|].
+  unfold excl_opt. rewrite H3. discriminate.
 Qed.
 
 Example main_total_nonvacuous :
   forallb (src_well_typed template) [ex_partial_source; ex_full_source] = true
-  /\ forallb (excl_src_ok (s"input.exclude_filters")) [ex_partial_source; ex_full_source] = true.
-Proof. vm_compute. split; reflexivity. Qed.
+  /\ forallb (excl_src_ok (s"input.exclude_filters")) [ex_partial_source; ex_full_source] = true
+  /\ main_accepts (s"/w") ([ex_partial_source; ex_full_source] ++ [defaults_src]) = true.
+Proof. vm_compute. repeat split; reflexivity. Qed.
+
+(* the summary: with the two checks main() makes itself, NO wrong-typed winning value of ANY
+   option of the template is accepted.  Where the template rejects the value (wrong_type_rejected)
+   settings.get fails; the two template-level exceptions are exactly the two options main() checks:
+   (TOptSeq, string) can only be input.exclude_filters and (TStrSeq, mapping) only rst.headers
+   (exception_covered, computed on the generated template) *)
+Lemma template_exceptions_covered : forallb exception_covered template = true.
+Proof. vm_compute. reflexivity. Qed.
+
+Theorem wrong_type_rejected_by_main : forall cwd stack k ty v src,
+  In (k, ty) template ->
+  yval_has_type ty v = false ->
+  resolve stack k = Some (v, src) ->
+  main_accepts cwd stack = false.
+Proof.
+  intros cwd stack k ty v src Hin Hty R.
+  assert (Hcov := template_exceptions_covered). rewrite forallb_forall in Hcov.
+  specialize (Hcov _ Hin). unfold exception_covered in Hcov. cbn [fst snd] in Hcov.
+  apply resolve_first_setting_source in R. destruct R as (pre & post & Es & Hv & Hpre). subst stack.
+  destruct (known_exception ty v) eqn:Hex.
+  - apply known_exception_spec in Hex. destruct Hex as [[Et Ev] | [Et Ev]]; subst ty.
+    + (* F15: a string for the exclude filters *)
+      apply str_eqb_eq in Hcov. subst k. destruct v; try discriminate Ev.
+      apply (exclude_filters_string_not_accepted_by_main cwd pre src post v Hv).
+    + (* F27: a mapping for the headers *)
+      apply str_eqb_eq in Hcov. subst k. destruct v; try discriminate Ev.
+      apply (headers_mapping_rejected_by_main cwd pre src post keys Hpre Hv).
+  - apply main_rejects_template.
+    apply (wrong_type_not_replaced cwd pre src post k ty v Hin Hpre Hv Hty Hex).
+Qed.
+
+(* the same with the winning source spelled out, like wrong_type_not_replaced but without the
+   side condition known_exception = false *)
+Corollary wrong_type_rejected_by_main_explicit : forall cwd pre src post k ty v,
+  In (k, ty) template ->
+  Forall (unset k) pre ->
+  assoc k (src_vals src) = Some v ->
+  yval_has_type ty v = false ->
+  main_accepts cwd (pre ++ src :: post) = false.
+Proof.
+  intros cwd pre src post k ty v Hin Hpre Hv Hty.
+  apply (wrong_type_rejected_by_main cwd _ k ty v src Hin Hty).
+  apply resolve_first_setting_source. exists pre, post. repeat split; assumption.
+Qed.
+
+(* every option of the template, every kind of value that is not of the option's type, in the
+   winning source: rejected (this includes the two former exceptions) *)
+Definition wrong_values : list yval :=
+  [YBool true; YStr (s"x y"); YInt 3; YNull; YList [YStr (s"a")]; YList [YInt 1]; YList [];
+   YMap [s"a"; s"b"]; YMap []].
+
+Example wrong_type_rejected_by_main_nonvacuous :
+  forallb (fun kt =>
+    forallb (fun v =>
+      yval_has_type (snd kt) v
+      || negb (main_accepts (s"/w")
+                 [{| src_kind := SrcFile; src_vals := [(fst kt, v)]; src_dir := None |}; defaults_src]))
+      wrong_values) template = true
+  /\ forallb (fun kt => Nat.leb 5 (length (filter (fun v => negb (yval_has_type (snd kt) v)) wrong_values)))
+             template = true
+  /\ yval_has_type TOptSeq (YStr (s"x y")) = false /\ yval_has_type TStrSeq (YMap [s"a"; s"b"]) = false.
+Proof. vm_compute. repeat split; reflexivity. Qed.
 
 (* ==== MAIN THEOREMS ====
    K1  resolve_first_setting_source, resolve_none
@@ -1057,10 +1374,11 @@ Proof. vm_compute. split; reflexivity. Qed.
    K4  defaults_complete_and_well_typed, defaults_settings_total
    K5  dataclass_fields_match_template
    K6  cli_dests_are_option_paths, absent_flag_sets_nothing, args_source_only_given_flags
-   K7  wrong_type_rejected (two documented exceptions: known_exception), wrong_type_rejected_explicit,
-       wrong_type_accepted_only_two_exceptions, right_type_accepted, wrong_type_not_replaced,
+   K7  wrong_type_rejected (template alone: two documented exceptions, known_exception),
+       wrong_type_rejected_explicit, wrong_type_accepted_only_two_exceptions, right_type_accepted,
+       wrong_type_not_replaced,
        C16_exclude_filters_string_refuted (F15, template alone),
-       C16_headers_mapping_refuted (F27)
+       C16_headers_mapping_refuted, headers_mapping_accepted (F27, template alone)
    K8  exclude_is_union, exclude_wrong_type_rejected, exclude_accepted_iff_all_sources_ok,
        exclude_rejected_iff_some_source_bad, exclude_four_sources,
        exclude_four_sources_wrong_type_rejected, exclude_filters_string_rejected_by_main (F15 closed),
@@ -1068,6 +1386,11 @@ Proof. vm_compute. split; reflexivity. Qed.
    K9  resolve_filename_abs, resolve_filename_rel_cwd, resolve_filename_rel_config,
        resolve_filename_rel_config_nofile, resolve_filename_spec, output_dir_resolution
    K10 settings_total_on_well_typed, main_total_on_well_typed
+   K11 main_accepts_spec, dispatch_main_settings_code (the extracted model answers code 0 iff
+       main_accepts), headers_mapping_rejected_by_main (F27 closed),
+       exclude_filters_string_not_accepted_by_main, headers_list_or_string_not_affected,
+       headers_ok_false_iff, wrong_type_rejected_by_main (no exception left),
+       wrong_type_rejected_by_main_explicit
 *)
 Print Assumptions resolve_first_setting_source.
 Print Assumptions resolve_none.
@@ -1103,3 +1426,12 @@ Print Assumptions output_dir_resolution.
 Print Assumptions resolve_filename_spec.
 Print Assumptions settings_total_on_well_typed.
 Print Assumptions main_total_on_well_typed.
+Print Assumptions main_accepts_spec.
+Print Assumptions headers_ok_false_iff.
+Print Assumptions headers_mapping_rejected_by_main.
+Print Assumptions exclude_filters_string_not_accepted_by_main.
+Print Assumptions headers_list_or_string_not_affected.
+Print Assumptions wrong_type_rejected_by_main.
+Print Assumptions wrong_type_rejected_by_main_explicit.
+Print Assumptions headers_mapping_accepted.
+Print Assumptions dispatch_main_settings_code.
